@@ -21,8 +21,8 @@ variable {α : Type}
 theorem step_data (s : State) (hT : s.missingTerm ≠ 0) (r : Nat) (e : Elem α) :
     (step s (.elem r e)).2.filter Elem.isData = if e.isData then [e] else [] := by
   cases e with
-  | item a => simp [step, hT, Elem.isData]
-  | ts a t => simp [step, hT, Elem.isData]
+  | item a => simp only [step, hT, if_false]; cases s.pending <;> simp [Elem.isData]
+  | ts a t => simp only [step, hT, if_false]; cases s.pending <;> simp [Elem.isData]
   | flushBatch => simp [step, hT, Elem.isData]
   | wm t =>
     simp only [step, hT, if_false, Elem.isData]
